@@ -12,10 +12,10 @@ RECURSIVE Closure(_, _)
 Closure(E, S) == LET T == S \cup UNION {Children(E, n) : n \in S}
                  IN IF T = S THEN S ELSE Closure(E, T)
 
-Range(s) == {s[i] : i \in 1..Len(s)}
+Elems(s) == {s[i] : i \in 1..Len(s)}
 
 (* nodes reachable from the roots, the roots included *)
-Reach(E, roots) == Closure(E, Range(roots))
+Reach(E, roots) == Closure(E, Elems(roots))
 
 (* some reachable node can reach itself through at least one edge *)
 Cyclic(E, roots) == \E n \in Reach(E, roots) : n \in Closure(E, Children(E, n))
@@ -30,6 +30,6 @@ Pos(out, n) == CHOOSE i \in 1..Len(out) : out[i] = n
 (* the contract for an output sequence *)
 ValidOrder(E, roots, out) ==
   /\ NoRepeats(out)
-  /\ Range(out) = Reach(E, roots)
+  /\ Elems(out) = Reach(E, roots)
   /\ ~Cyclic(E, roots) => \A pr \in MustPrecede(E, roots) : Pos(out, pr[1]) < Pos(out, pr[2])
 =============================================================================
